@@ -121,7 +121,9 @@ theorem deposit_perm {Part : Type} {shift : Idx n → Part → Part} {D : List P
 
 /-! ### the pipeline -/
 
-/-- `normalize_field(field, tot_weight = len(pos))`: `field · (field.size / len(pos)) − 1` -/
+/-- `normalize_field(field, tot_weight = len(pos))`: `field · (field.size / len(pos)) − 1`.
+For an empty particle list the real code raises `ZeroDivisionError`; nothing is claimed about the value
+this definition takes there (`x / 0 = 0` in Lean) — `calcPower` below returns `none` in that case. -/
 noncomputable def delta {Part : Type} (D : List Part → Grid n) (P : List Part) : Grid n :=
   fun x => D P x * (((n : ℂ) ^ 3) / (P.length : ℂ)) - 1
 
@@ -272,9 +274,14 @@ theorem codedW1_pos {n : ℕ} [NeZero n] (paste : Paste) (interlaced : Bool) (i 
 
 /-! ### `calc_power`, end to end -/
 
-/-- `calc_power(pos, …, pos2)`: window (if `compensated`), Fourier field(s) with the coded interlacing
+/-- `calc_power` raises `ZeroDivisionError` (in `normalize_field`: `field.size / tot_weight` with
+`tot_weight = len(pos) = 0`) when a particle set is empty -/
+def rejects {Part : Type} (P : List Part) (P2 : Option (List Part)) : Bool :=
+  P.isEmpty || (match P2 with | none => false | some Q => Q.isEmpty)
+
+/-- the table of an accepted call: window (if `compensated`), Fourier field(s) with the coded interlacing
 phase, raw auto or cross power, binning -/
-noncomputable def calcPower [NeZero n] {Part β γ ι : Type} [DecidableEq β] [DecidableEq γ]
+noncomputable def calcTable [NeZero n] {Part β γ ι : Type} [DecidableEq β] [DecidableEq γ]
     (D D' : List Part → Grid n) (paste : Paste) (compensated interlaced : Bool) (B : Binning n β γ ι)
     (P : List Part) (P2 : Option (List Part)) : Table β γ ι :=
   let W : Idx n → ℝ := if compensated then codedW n paste interlaced else fun _ => 1
@@ -282,6 +289,23 @@ noncomputable def calcPower [NeZero n] {Part β γ ι : Type} [DecidableEq β] [
   match P2 with
   | none => binTable B (autoPower F)
   | some Q => binTable B (crossPower F (fourierField D D' interlaced (codedPhase n) W Q))
+
+/-- `calc_power(pos, …, pos2)`: `none` where the real code raises, else the table -/
+noncomputable def calcPower [NeZero n] {Part β γ ι : Type} [DecidableEq β] [DecidableEq γ]
+    (D D' : List Part → Grid n) (paste : Paste) (compensated interlaced : Bool) (B : Binning n β γ ι)
+    (P : List Part) (P2 : Option (List Part)) : Option (Table β γ ι) :=
+  if rejects P P2 then none else some (calcTable D D' paste compensated interlaced B P P2)
+
+theorem rejects_map {Part : Type} (f : Part → Part) (P : List Part) :
+    rejects (P.map f) none = rejects P none := by
+  simp [rejects]
+
+theorem rejects_map₂ {Part : Type} (f : Part → Part) (P Q : List Part) :
+    rejects (P.map f) (some (Q.map f)) = rejects P (some Q) := by
+  simp [rejects]
+
+theorem isEmpty_perm {Part : Type} {P Q : List Part} (h : P.Perm Q) : P.isEmpty = Q.isEmpty := by
+  cases P <;> cases Q <;> simp_all
 
 /-! ### helper lemmas -/
 
